@@ -317,6 +317,10 @@ def object_shapes(nm: Namer) -> Dict[str, Callable[[T, Ctx], Optional[T]]]:
         o = Obj("dataclass", nm("O"), (F("a", TVar("TV")), F("b", Coll("list", TVar("TV")), factory="list", default_value=[])), generic_params=("TV",))
         return Gen(o, (x,))
 
+    def ordered(x, c):
+        # serialized in an order which is not the declaration order
+        return Obj("dataclass", nm("O"), (F("a", x), F("b", INT, default="0", has_default=True, default_value=0, order="order(-1)")))
+
     def generic_swap(x, c):
         # class O(GB[TW, TV], Generic[TV, TW]): the parameters of the subclass are NOT in the order of their first
         # appearance in the bases; O[x, str] has a: str, b: x
